@@ -84,7 +84,7 @@ fn expected_rule(class: &str) -> Option<&'static [&'static str]> {
         "job-split-over-tours" | "job-split-over-tours|other-shift-of-same-vehicle" => &["job served in multiple tours"],
         "assigned-and-unassigned" => &["job present as assigned and unassigned"],
         "duplicated-job" => &["not all tasks served for"],
-        "unknown-job" => &["cannot find job with id"],
+        "unknown-job" => &["cannot match activities to jobs", "cannot find job with id"],
         "limit-breach-tour-size" => &["tour size limit violation"],
         "limit-breach-distance" => &["max distance limit violation"],
         "limit-breach-duration" => &["shift time limit violation"],
@@ -107,7 +107,7 @@ const ALL_RULE_TEXTS: &[&str] = &[
     "job served in multiple tours", "job present as assigned and unassigned", "not all tasks served for", "cannot find job with id", "tour size limit violation",
     "max distance limit violation", "shift time limit violation", "does not follow strict rule", "has jobs assigned to another tour", "arrival time mismatch for",
     "distance mismatch for", "distance mismatch for tour statistic", "duration mismatch for tour statistic", "solution statistic mismatch", "load exceeds capacity in tour",
-    "load mismatch", "cannot find break for tour", "cannot match all breaks", "break visit time",
+    "load mismatch", "cannot find break for tour", "cannot match all breaks", "break visit time", "cannot match activities to jobs",
 ];
 
 struct Mutant {
